@@ -49,6 +49,7 @@ pub enum BOp {
     SysDataOptRead(u8),  // world.system_data::<Option<Read<T>>>() while the guards are alive
     SysDataOptWrite(u8), // world.system_data::<Option<Write<T>>>()
     Has(u8, u64),        // a presence query while the guards are alive (it borrows nothing)
+    FetchInDrop(u8, bool), // a typed try_fetch (false) / try_fetch_mut (true) issued by a destructor while a panic unwinds
 }
 
 #[derive(Clone, Debug, PartialEq)]
@@ -94,6 +95,7 @@ impl WCase {
                             BOp::SysDataOptRead(t) => s += &format!("  sysdata_opt_read t={}\n", t),
                             BOp::SysDataOptWrite(t) => s += &format!("  sysdata_opt_write t={}\n", t),
                             BOp::Has(t, d) => s += &format!("  has t={} d={}\n", t, d),
+                            BOp::FetchInDrop(t, m) => s += &format!("  fetch_in_drop t={} m={}\n", t, *m as u8),
                         }
                     }
                     s += "}\n";
@@ -129,6 +131,7 @@ impl WCase {
                     "sysdata_opt_read" => b.push(BOp::SysDataOptRead(f(&toks, "t")? as u8)),
                     "sysdata_opt_write" => b.push(BOp::SysDataOptWrite(f(&toks, "t")? as u8)),
                     "has" => b.push(BOp::Has(f(&toks, "t")? as u8, f(&toks, "d")?)),
+                    "fetch_in_drop" => b.push(BOp::FetchInDrop(f(&toks, "t")? as u8, f(&toks, "m")? != 0)),
                     o => return Err(format!("unknown borrow op {}", o)),
                 }
                 continue;
@@ -176,7 +179,8 @@ pub fn generate(rng: &mut Rng) -> WCase {
                     let d = [0u64, 0, 1, 7][rng.below(4)];
                     let t2 = (t + 1) % 3;
                     val += 1;
-                    b.push(match rng.below(13) {
+                    b.push(match rng.below(14) {
+                        13 => BOp::FetchInDrop(t, rng.chance(50)),
                         12 => BOp::Has(t, d),
                         10 => BOp::SysDataOptRead(t),
                         11 => BOp::SysDataOptWrite(t),
@@ -193,6 +197,30 @@ pub fn generate(rng: &mut Rng) -> WCase {
         }
     }
     WCase { ops }
+}
+
+/// a typed fetch issued from a destructor while a panic is unwinding the stack (the guard, if any, is dropped at once)
+fn fetch_in_drop<T: shred::Resource>(w: &World, mutable: bool) -> Result<bool, String> {
+    struct Asker<'w, T: shred::Resource> {
+        w: &'w World,
+        mutable: bool,
+        out: &'w std::cell::RefCell<Option<Result<bool, String>>>,
+        _t: std::marker::PhantomData<T>,
+    }
+    impl<T: shred::Resource> Drop for Asker<'_, T> {
+        fn drop(&mut self) {
+            let (w, m) = (self.w, self.mutable);
+            let r = quiet(|| if m { w.try_fetch_mut::<T>().is_some() } else { w.try_fetch::<T>().is_some() });
+            *self.out.borrow_mut() = Some(r);
+        }
+    }
+    let out = std::cell::RefCell::new(None);
+    let _ = catch_unwind(AssertUnwindSafe(|| {
+        let _asker = Asker::<T> { w, mutable, out: &out, _t: std::marker::PhantomData };
+        panic!("unwinding past a destructor that asks the world");
+    }));
+    let r = out.borrow_mut().take();
+    r.unwrap_or_else(|| Err("the destructor did not run".into()))
 }
 
 fn rid(t: u8, d: u64) -> ResourceId {
@@ -457,6 +485,27 @@ pub fn run(case: &WCase) -> Option<(&'static str, String)> {
                                     }
                                     if some != present {
                                         return Some(("C08", format!("{} returned {}, the resource is {}", bwhat, if some { "Some" } else { "None" }, if present { "present" } else { "absent" })));
+                                    }
+                                }
+                            }
+                        }
+                        BOp::FetchInDrop(t, mutable) => {
+                            // the rule does not depend on who asks: a destructor running while a panic unwinds gets the same answer
+                            let present = model.contains_key(&(*t, 0));
+                            let must_panic = present && (excl(&guards, *t, 0) || (*mutable && shared(&guards, *t, 0) > 0));
+                            let r: Result<bool, String> = by_type!(*t, T => fetch_in_drop::<T>(w, *mutable));
+                            match r {
+                                Err(m) => {
+                                    if !must_panic {
+                                        return Some(("C08", format!("{} (from a destructor during unwinding) panicked although the resource is {}: {}", bwhat, if present { "not borrowed in a conflicting way" } else { "absent" }, m)));
+                                    }
+                                }
+                                Ok(some) => {
+                                    if must_panic {
+                                        return Some(("C08", format!("{} (from a destructor during unwinding) returned {} while a conflicting guard of the resource is alive (must panic; None is for absent resources only)", bwhat, if some { "a guard" } else { "None" })));
+                                    }
+                                    if some != present {
+                                        return Some(("C08", format!("{} (from a destructor during unwinding) returned {}, the resource is {}", bwhat, if some { "Some" } else { "None" }, if present { "present" } else { "absent" })));
                                     }
                                 }
                             }
